@@ -14,7 +14,7 @@ PROPS = {
         native=[dict(files=["contracts/C07/whole_run_native.rs"],
                      harnesses={"c05_native_whole_runs": dict(anchor="whole runs of the shipped templates (final state)",
                                 bound=B + "every evaluated individual on the final population stack and the best-so-far carry f(solution)")})],
-        min_obligations={"quick": 16, "thorough": 16},
+        min_obligations={"quick": 19, "thorough": 19},
         uncovered=["'after every component execution of every shipped heuristic' (whole runs) is not decided by per-function contracts"],
         assumptions=["Clone/PartialEq of the encoding and objective types behave as vstd's `cloned` / spec eq",
                      "fields `solution`/`objective` are private and only written in src/problems/individual.rs (scan)"],
@@ -30,7 +30,7 @@ PROPS = {
                        "kani::ensures(|r: &Result<SingleObjective, IllegalObjective>| r.is_err() == (value.is_nan() || value == f64::NEG_INFINITY))",
                        "kani::ensures(|r: &Result<SingleObjective, IllegalObjective>| match r { Ok(v) => v.value().to_bits() == value.to_bits(), Err(_) => true })",
                    ])])],
-        min_obligations={"quick": 16, "thorough": 21},
+        min_obligations={"quick": 19, "thorough": 19},
         assumptions=["CBMC's IEEE-754 float model", "derive_more operator derives compiled as in the real build"],
     ),
 }
@@ -45,7 +45,7 @@ PROPS["C04"] = dict(
                 expect=["Populations<P>::rotate", "Populations<P>::try_peek", "Populations<P>::try_pop", "Populations<P>::pop",
                         "Populations<P>::push", "Populations<P>::current_mut", "template::lemma_n_rotations_restore"])],
     kani=[dict(files=["contracts/C04/c04.rs"])],
-    min_obligations={"quick": 24, "thorough": 26},
+    min_obligations={"quick": 26, "thorough": 26},
     uncovered=["RotatePopulations::execute guard (State-based; see C03/C12 glue)"],
     assumptions=["slice::rotate_right(k) moves the last k elements to the front (assumed in Verus, checked by the Kani triples at heights <= 4)",
                  "Vec range IndexMut == as_mut_slice()[range] (closed-list rewrite)"],
@@ -96,7 +96,7 @@ PROPS["C07"] = dict(
             dict(files=[], inject=[dict(file="contracts/C07/c07_archive_native.rs", into="src/components/archive.rs")],
                  harnesses={"c07_native_archive_histories": dict(anchor="ElitistArchive::update (histories)",
                             bound="BOUNDED STAND-IN, native exhaustive enumeration: all 3-update histories with populations of 0..2 individuals, objective values in {1,2,3}, capacities 0..4 (10985 histories)")})],
-    min_obligations={"quick": 42, "thorough": 44},
+    min_obligations={"quick": 86, "thorough": 86},
     uncovered=["whole-run clause 'reported best = minimum returned' (placement of updates in templates)"],
     assumptions=["SingleObjective order laws (preamble/objective.rs) = C09 obligations"],
 )
@@ -132,7 +132,7 @@ PROPS["C16"] = dict(
     native=[dict(files=["contracts/C07/whole_run_native.rs"],
                  harnesses={"c16_native_whole_runs": dict(anchor="whole runs of the shipped templates (completion, iterations, stack, size)",
                             bound=B + "runs without error, performs exactly the requested iterations, one population at the end, prescribed population size")})],
-    min_obligations={"quick": 5, "thorough": 5},
+    min_obligations={"quick": 10, "thorough": 10},
     uncovered=["per-pass stack height (only the end of the run is observed)", "the two ACO templates", "other problem instances and parameter sets than the ones run"],
     assumptions=["abstract-children mirror of Component/Condition; value-state mirror (C01/C02 contracts)"],
 )
@@ -148,7 +148,7 @@ PROPS["C18"] = dict(
     native=[dict(files=["contracts/C07/whole_run_native.rs", "contracts/C18/c18_native.rs"],
                  harnesses={"c18_native_swarm": dict(anchor="PSO components (velocity update, inertia weight, personal/global best)",
                             bound="BOUNDED STAND-IN, native run: real PSO template with probes, 12 iterations x 4 seeds x 2 objective scales (1 and 1e-18) x 5 parameter sets (decreasing, increasing and constant weight schedules; two with c1 = c2 = 0 to observe the stored inertia weight; one with a single particle)")})],
-    min_obligations={"quick": 4, "thorough": 4},
+    min_obligations={"quick": 6, "thorough": 6},
     uncovered=["the velocity formula itself with non-zero c1, c2 (random draws)", "Linear::map for symbolic weights (CBMC does not finish: two float multiply-add chains); only the pairs (0.9, 0.4), (0.4, 0.9)"],
     assumptions=["lens / mapping mirrors (arbitrary functions of problem and state)", "CBMC's IEEE-754 model"],
 )
@@ -164,7 +164,7 @@ PROPS["C19"] = dict(
     native=[dict(files=["contracts/C19/c19_native.rs"],
                  harnesses={"c19_native_ant_colony": dict(anchor="AcoGeneration / AsPheromoneUpdate / MinMaxPheromoneUpdate",
                             bound="BOUNDED STAND-IN, native run: 2 TSP instances (5 and 6 cities) x 4 seeds x {ant system with alpha in {1, 0, 0.25, 2}, max-min with initial trails inside / above / below the bounds} x 25 generation + evaluation + update steps")})],
-    min_obligations={"quick": 2, "thorough": 3},
+    min_obligations={"quick": 2, "thorough": 2},
     uncovered=["'for every pheromone state the algorithm can reach' beyond the states reached in the runs", "the sampling distribution of the tours",
                "evaporation with a symbolic factor (CBMC does not finish: float multipliers); factors {1, 0.5, 0.75, 0}"],
     assumptions=["CBMC's IEEE-754 model"],
@@ -245,7 +245,7 @@ PROPS["C13"] = dict(
                             bound="BOUNDED STAND-IN, native run: Uniform/1-,2-,3-point/Arithmetic crossover x insert-one/both x 64 seeds on fixed parents; CycleCrossover on all 576 pairs of length-4 permutations"),
                             "c13_native_value_mutations": dict(anchor="mutation components (real, bit)",
                             bound="BOUNDED STAND-IN, native run: Normal/Uniform/PartialRandomSpread and BitFlip/PartialRandomBitstring x rm in {0, 0.5, 1} x dimension 1..4 x population size 0..3 x 32 seeds")})],
-    min_obligations={"quick": 10, "thorough": 20},
+    min_obligations={"quick": 15, "thorough": 15},
     uncovered=["mutation components' execute (State + RNG)", "recombination() driver is only covered by a BOUNDED native run", "real/bit mutations gated by the rate"],
 )
 PROPS["C14"] = dict(
@@ -259,7 +259,7 @@ PROPS["C14"] = dict(
                             bound="BOUNDED STAND-IN, native run: 40 seeds x sizes 0..4 x 4 domains / dimensions 0..5 for random_spread, random_permutation, random_bitstring"),
                             "c14_native_components": dict(anchor="initialisation and boundary-repair components",
                             bound="BOUNDED STAND-IN, native run: RandomSpread/RandomPermutation/RandomBitstring/Empty components x sizes {0,1,2,7} x 16 seeds; Saturation/Toroidal/Mirror/CompleteOneTailedNormalCorrection components on a 27-point grid per coordinate (up to 1e6 widths outside, every half width up to 5) x 3 domains x 8 seeds (bounds, unchanged-inside, idempotence)")})],
-    min_obligations={"quick": 38, "thorough": 41},
+    min_obligations={"quick": 39, "thorough": 39},
     uncovered=["initialisation operators (rejection-sampling loops over a symbolic RNG are unbounded)", "resampling distribution",
                "boundary_constraint driver over populations"],
 )
@@ -277,7 +277,7 @@ PROPS["C12"] = dict(
     native=[dict(files=["contracts/C12/c12_native.rs"],
                  harnesses={"c12_native_keep_better_at_index": dict(anchor="KeepBetterAtIndex::replace",
                             bound="BOUNDED STAND-IN, native exhaustive enumeration: equal sizes 0..2 over 5 objective values (incl. ties, +inf) + 4 unequal-size pairs")})],
-    min_obligations={"quick": 31, "thorough": 35},
+    min_obligations={"quick": 50, "thorough": 50},
     uncovered=["KeepBetterAtIndex is only covered by a BOUNDED native enumeration (ensure! => Kani ICE; iterator chain => Verus rejects)"],
 )
 
@@ -287,7 +287,7 @@ PROPS["C02"] = dict(
                  "(unbounded). Kani: borrow-conflict mapping, distinct() and multi-borrow aliasing triples at enumerated shapes."),
     verus=[dict(name="holding", template="contracts/C02/holding.vrs", expect=["State<'a, P>::holding"])],
     kani=[dict(files=["contracts/C02/c02.rs"], map_shim=True, map_shim_files=["src/state/registry/mod.rs", "src/state/registry/entry.rs", "src/state/registry/multi.rs"], harness_timeout="900s", timeout_s=2700)],
-    min_obligations={"quick": 10, "thorough": 10},
+    min_obligations={"quick": 13, "thorough": 13},
     uncovered=["the reader-count state machine itself is std::cell::RefCell's contract (assumed)"],
 )
 PROPS["C10"] = dict(
@@ -304,7 +304,7 @@ PROPS["C10"] = dict(
                             bound="BOUNDED STAND-IN, native enumeration: And/Or over every operand vector of length 0..4 (2 evaluations each), Not(And), OptimumReached on a 3x6 grid"),
                             "c10_native_loops_and_chance": dict(anchor="Loop + LessThanN + EveryN + RandomChance (whole loops)",
                             bound="BOUNDED STAND-IN, native run: loops bounded by n in 0..7 (passes, tests, progress per pass) x every-m for m in 1..4; RandomChance frequency over 20000 draws for 6 probabilities")})],
-    min_obligations={"quick": 17, "thorough": 17},
+    min_obligations={"quick": 18, "thorough": 18},
     uncovered=["And/Or::evaluate (closure capturing &mut state: Verus rejects; Kani does not terminate)", "the VALUE of the progress written by LessThanN (float division is uninterpreted)",
                "OptimumReached", "RandomChance (probability)"],
 )
@@ -327,7 +327,7 @@ PROPS["C11"] = dict(
     native=[dict(files=["contracts/C11/c11_native.rs"],
                  harnesses={"c11_native_selection_operators": dict(anchor="Selection::select (sampling operators)",
                             bound="BOUNDED STAND-IN, native run: 6 populations (sizes 0..5, ties, negatives) x counts 0..n+2 x 6 seeds x 12 operators as components; 4000-draw best-vs-worst frequency for the 4 weight-based operators")})],
-    min_obligations={"quick": 33, "thorough": 39},
+    min_obligations={"quick": 40, "thorough": 40},
     uncovered=["ExponentialRank, RouletteWheel, SUS, Tournament, DE selections, FullyRandom, CloneSingle are only covered by a BOUNDED native run "
                "(float powi / accumulation, rejection-sampling loops over a symbolic RNG, State + eyre keep both verifiers out)"],
 )
@@ -346,7 +346,7 @@ PROPS["C15"] = dict(
                             bound="BOUNDED STAND-IN, native exhaustive enumeration: all logs of <= 3 steps x <= 3 distinct names out of 4 (68921 logs)"),
                             "c15_native_logger_json_roundtrip": dict(anchor="Logger -> Log -> to_json",
                             bound="BOUNDED STAND-IN, native run: 512 logger configurations (loop lengths 0,1,5,6 x two periodic rules with periods 0..3 x duplicate-name rule x missing-source rule x explicit iteration-counter rule); recorded steps and the decoded JSON and CBOR exports compared with independently computed expectation")})],
-    min_obligations={"quick": 6, "thorough": 6},
+    min_obligations={"quick": 7, "thorough": 7},
     uncovered=["compressed export kernel CompressedLog::from is only covered by a BOUNDED native enumeration (CBMC does not finish even on one concrete two-step log: 10 min / 22 GB; Verus rejects its &mut-capturing closure; Kani harness kept in contracts/attic/)",
                "JSON export decoding and the RON configuration export only through BOUNDED native runs; the two ACO templates are not serialised (private parameter fields, TSP instance)"],
 )
@@ -360,7 +360,7 @@ PROPS["C01"] = dict(
                  "All histories that stay within the bound agree with the model by induction over operations (not machine-checked)."),
     verus=[],
     kani=[dict(files=["contracts/C01/c01.rs"], map_shim=True, map_shim_files=REG_FILES, harness_timeout="900s", timeout_s=2700)],
-    min_obligations={"quick": 36, "thorough": 140},
+    min_obligations={"quick": 38, "thorough": 38},
     trusted=["std HashMap/HashSet replaced by an association list with the same interface under cfg(kani) (shim/verif_map.rs)",
              "std::cell::RefCell, better_any downcasts: exercised, not specified"],
     uncovered=["histories beyond the enumerated shapes (induction over operations is not machine-checked)", "take / panicking accessors"],
@@ -377,7 +377,7 @@ PROPS["C17"] = dict(
     native=[dict(files=["contracts/C17/c17_native.rs"],
                  harnesses={"c17_native_metropolis_grid": dict(anchor="ExponentialAnnealingAcceptance::execute",
                             bound="BOUNDED STAND-IN, native grid: 8x8 objective pairs (incl. equal, +inf) x 5 temperatures x 25 seeds x {2,3} populations")})],
-    min_obligations={"quick": 27, "thorough": 27},
+    min_obligations={"quick": 31, "thorough": 31},
     uncovered=["the acceptance probability itself (statistical) and 'equally good is always accepted' (needs exp(0) = 1 > u: floats are uninterpreted in Verus)",
                "mapping() driver applying the cooling through lenses"],
     assumptions=["float operations are defined (vstd sub_req/div_req lifted into the precondition)"],
@@ -397,7 +397,7 @@ PROPS["C06"] = dict(
             dict(files=["contracts/C06/c06_native.rs"],
                  harnesses={"c06_native_population_evaluator": dict(anchor="PopulationEvaluator::execute",
                             bound="BOUNDED STAND-IN, native run: population sizes 0..4 x every evaluated/unevaluated mix x {sequential, parallel} x 1..2 steps; missing-evaluator run")})],
-    min_obligations={"quick": 4, "thorough": 4},
+    min_obligations={"quick": 9, "thorough": 9},
     uncovered=["PopulationEvaluator::execute incl. the evaluation COUNTER (closure capturing &mut population: Verus rejects; State + eyre: Kani cannot)",
                "Parallel evaluator (threads)",
                "whole-run equality 'reported evaluations = objective-function invocations'", "firefly update's own counting"],
